@@ -281,6 +281,14 @@ class Unsup(Exception):
     pass
 
 
+class Q(Fraction):
+    """exact quotient that remembers its unreduced operands"""
+    def __new__(cls, n, d):
+        self = super().__new__(cls, n, d)
+        self.raw = (n, d)
+        return self
+
+
 def ref_tz(off):
     if off is None:
         off = 0
@@ -336,7 +344,7 @@ def pyref1(n):
             raise Unsup(f)
         return a[0] - a[1]
     if f == '/' and all(ists):
-        return Fraction(us_of(a[0]), us_of(a[1]))
+        return Q(us_of(a[0]), us_of(a[1]))
     if f in ('*', '/'):
         raise Unsup(f)
     if f == 'neg':
@@ -346,7 +354,7 @@ def pyref1(n):
     if f in TS_PROPS:
         if not ists[0]:
             raise Unsup(f)
-        return us_of(a[0]) if f == 'microseconds' else Fraction(us_of(a[0]), UNIT[f])
+        return us_of(a[0]) if f == 'microseconds' else Q(us_of(a[0]), UNIT[f])
     if f == 'timespan':
         names = ['days', 'hours', 'minutes', 'seconds', 'milliseconds', 'microseconds']
         args = dict(zip(names, a))
@@ -382,7 +390,7 @@ def pyref1(n):
     if f == 'offset':
         return d.utcoffset()
     if f == 'timestamp':
-        return Fraction(us_of(d - EPOCH_UTC), US)
+        return Q(us_of(d - EPOCH_UTC), US)
     if f == 'date':
         return d.replace(hour=0, minute=0, second=0, microsecond=0)
     if f == 'time':
@@ -410,6 +418,8 @@ def ref_eval(n):
         return None
     except Exception as e:  # noqa
         return ['err', type(e).__name__]
+    if isinstance(v, Q):
+        return ['q', Fraction(v), v.raw[0], v.raw[1]]
     if isinstance(v, Fraction):
         return ['q', v]
     return canon(v)
@@ -429,14 +439,19 @@ def model_value(m):
     if 'b' in m:
         return ['b', m['b']]
     if 'q' in m:
-        return ['q', Fraction(m['q'][0], m['q'][1])]
+        return ['q', Fraction(m['q'][0], m['q'][1]), m['q'][0], m['q'][1]]
     return ['err', m.get('err', '?')]
 
 
 def same(real, other):
-    """real canonical value against a model / reference value"""
+    """real canonical value against a model / reference value.  A float result against the exact rational:
+    equal to the correctly rounded quotient (1 ulp allowed) while numerator and denominator are exactly
+    representable; beyond 2^53 the code's float(int) conversions of the operands round first, which can move the
+    quotient by up to 3 ulps (0.5 + 1 + 1 + 0.5)"""
     if other[0] == 'q':
-        return real[0] == 'fl' and close(real[1], other[1])
+        fr = other[1]
+        big = len(other) < 4 or abs(other[2]) >= 2 ** 53 or abs(other[3]) >= 2 ** 53     # the unreduced operands
+        return real[0] == 'fl' and close(real[1], fr, 3 if big else 1)
     return real == other
 
 
@@ -739,7 +754,7 @@ def gen_ts(rng, depth, hist):
             break
         hist['float-step-skipped'] = hist.get('float-step-skipped', 0) + 1
     else:
-        x = 1
+        return t        # so large that every quotient leaves the exactly representable range
     return C('/', [t, L_fl(x) if isinstance(x, float) else L_i(x, rng.random() < 0.2)])
 
 
@@ -1020,16 +1035,16 @@ def law_units(case):
             if r != ['i', x]:
                 return 'x.microseconds = %r for a timespan of %d us' % (r[1], x)
             continue
-        if r[0] != 'fl' or not close(r[1], Fraction(x, k)):
+        if r[0] != 'fl' or not close(r[1], Fraction(x, k), 1 if abs(x) < 2 ** 53 else 3):
             return 'x.%s = %r for a timespan of %d us, expected %r' % (u, r[1], x, x / k)
         vals[u] = r[1]
     for big, small, f in (('days', 'hours', 24), ('hours', 'minutes', 60), ('minutes', 'seconds', 60),
                           ('seconds', 'milliseconds', 1000)):
         r = ev('$x.%s * %d' % (big, f), x=t)
-        if r[0] != 'fl' or abs(r[1] - vals[small]) > 4 * math.ulp(vals[small]):
+        if r[0] != 'fl' or abs(r[1] - vals[small]) > 8 * math.ulp(vals[small]):
             return 'x.%s * %d = %r but x.%s = %r (timespan of %d us)' % (big, f, r[1], small, vals[small], x)
     r = ev('$x.milliseconds * 1000', x=t)
-    if r[0] != 'fl' or abs(r[1] - x) > 4 * math.ulp(float(x)):
+    if r[0] != 'fl' or abs(r[1] - x) > 8 * math.ulp(float(x)):
         return 'x.milliseconds * 1000 = %r but x.microseconds = %d' % (r[1], x)
     r = ev('timespan(microseconds => $x.microseconds)', x=t)
     if r != ['ts', x]:
